@@ -243,20 +243,28 @@ def rule_stats_args(F, ev, R, config, rule="R-STATS-ARGS"):
         while t[0] == "call" and t[1].rsplit("::", 1)[-1] in VIEWS and t[3]:
             t = t[3][0]
         return t
-    n = 0
-    for cb in sorted(F.bodies.values(), key=lambda x: x.key):
+    # call sites in the terms of the function that owns them (the call may sit in a closure: `coeffs.and_then(|c| Stats::new(…, c))`)
+    from effects import iteration_effects
+    evw = Eval(F, opaque=set(ev.opaque) | {b.key})
+    cid = strip_generics(b.j["path"])
+    roots = set()
+    for cb in F.bodies.values():
         for ci, t in cb.calls():
-            if "fn" not in t or (t["fn"].get("resolved_key") or t["fn"].get("key")) != b.key:
-                continue
-            n += 1
-            e = Env(cb)
-            ev.fresh_ctx()
+            if "fn" in t and (t["fn"].get("resolved_key") or t["fn"].get("key")) == b.key:
+                roots.add(cb.j.get("root", cb.key) if cb.kind == "Closure" else cb.key)
+    for rk in sorted(roots):
+        cb = F.bodies[rk]
+        sites = [e for e in iteration_effects(evw, Env(cb)) if e.kind == "call" and e.cid == cid]
+        if not sites:
+            R.bad(rule, config, cb.key, "anchor-missing", "the call of the statistics constructor is not reached through modelled adapters (undetermined)", cb.j["span"])
+        for e in sites:
+            t = e.term
             bases = {}
-            for i, op in enumerate(t["args"]):
+            for i, op in enumerate(e.raw):
                 role, fld = want.get(i + 1, (None, None))
                 if role is None:
                     continue
-                v = strip(ev.operand(e, op, (ci, None)))
+                v = strip(op)
                 ok, base = False, None
                 if role == "coefficients":
                     # payload(field(P, cache)).coefficient role
